@@ -38,6 +38,29 @@ def case(c):
         else:
             idx, itxt = {"index0": ({"k": "num", "v": 0, "ty": T("usize")}, "0usize"), "index_u8": ({"k": "num", "v": 0, "ty": T("u8")}, "0u8"), "index_var": ({"k": "var", "n": "p_z"}, "p_z")}[op]
             e, etxt = {"k": "idx", "a": l, "i": idx}, "(%s)[%s]" % (ltxt, itxt)
+    elif c["form"] == "match":
+        pid = lambda n: {"k": "pid", "n": n}
+        pats = {
+            "p_true": ({"k": "ptrue"}, "true"),
+            "p_u8": ({"k": "pnum", "v": 1, "ty": T("u8")}, "1u8"),
+            "p_i8": ({"k": "pnum", "v": -1, "ty": T("i8")}, "-1i8"),
+            "p_range_u8": ({"k": "prange", "lo": 1, "hi": 3, "ty": T("u8")}, "1u8..=3u8"),
+            "p_range_i16": ({"k": "prange", "lo": -2, "hi": 3, "ty": T("i16")}, "-2i16..=3i16"),
+            "p_tuple2": ({"k": "ptup", "ps": [pid("a"), pid("b")]}, "(a, b)"),
+            "p_tuple3": ({"k": "ptup", "ps": [pid("a"), pid("b"), pid("c")]}, "(a, b, c)"),
+            "p_struct": ({"k": "pstruct", "name": "S", "fs": [{"n": "x", "p": pid("a")}], "rest": False}, "S { x: a }"),
+            "p_struct_unknown_field": ({"k": "pstruct", "name": "S", "fs": [{"n": "y", "p": pid("a")}], "rest": False}, "S { y: a }"),
+            "p_struct_missing_field": ({"k": "pstruct", "name": "S", "fs": [], "rest": False}, "S { }"),
+            "p_enum_unit": ({"k": "penum", "name": "E", "v": "A", "ps": []}, "E::A"),
+            "p_enum_tuple": ({"k": "penum", "name": "E", "v": "B", "ps": [pid("a")]}, "E::B(a)"),
+            "p_enum_arity": ({"k": "penum", "name": "E", "v": "B", "ps": [pid("a"), pid("b")]}, "E::B(a, b)"),
+            "p_enum_unknown": ({"k": "penum", "name": "E", "v": "Z", "ps": []}, "E::Z"),
+            "p_binder": (pid("a"), "a"),
+        }
+        p, ptxt = pats[c["op"]]
+        blk = lambda v: {"k": "block", "ss": [{"k": "expr", "e": {"k": v}}]}
+        e = {"k": "match", "e": l, "arms": [{"p": p, "b": blk("true")}, {"p": pid("_"), "b": blk("false")}]}
+        etxt = "(match %s { %s => true, _ => false })" % (ltxt, ptxt)
     else:  # opassign on a mutable copy of the left operand
         r, rtxt = operand(c["r"])
         stmts = [{"k": "letmut", "n": "m", "e": l}, {"k": "opassign", "n": "m", "acc": [], "op": c["op"], "e": r}]
